@@ -328,6 +328,22 @@ def run(ctx):
                         apply_all(o[1], e, grid_envs, f'pow:{sa}{a}|{sb}{b}|{e[1]}', extra_feats=('shape:constant-power',),
                                   remake=parse_remake('expression'))
 
+    # B4. aggregates over constant ranges of growing size (folding must stay total: fold, or leave unfolded)
+    for fn in ('sum', 'prod', 'len', 'max', 'min'):
+        for lo in ('0', '1'):
+            for hi in ('10', '170', '1000', '2000', '50000', '1234567890123456789'):
+                for ex in (False, True):
+                    cellno += 1
+                    if not ctx.mine(cellno):
+                        continue
+                    e = ('bin', '<', A.fld('x'), ('call', fn, (('range', A.num(lo), A.num(hi), ex, ex),)))
+                    o = hplapi.outcome(PE.parse, A.render_expr(e))
+                    if o[0] != 'ok':
+                        continue
+                    ctx.count('large_range_aggregates')
+                    apply_all(o[1], e, grid_envs, f'bigrange:{fn}|{lo}|{hi}|{ex}', extra_feats=('shape:large-range',),
+                              remake=parse_remake('expression'))
+
     # C. random typed expressions and predicates
     for n in range(ctx.share(B['random'])):
         t = gen.pick(rng, (gen.BOOL, gen.BOOL, gen.NUM, gen.STR))
